@@ -507,6 +507,12 @@ func main() {
 	case o.Extra == "known":
 		known(o)
 		return
+	case strings.HasPrefix(o.Extra, "held"): // held iterators interleaved with mutators (held.go)
+		heldMain(o)
+		return
+	case strings.HasPrefix(o.Extra, "mat"): // sparse matrices (mat.go)
+		matMain(o)
+		return
 	}
 	if o.Replay != "" {
 		b, err := os.ReadFile(o.Replay)
